@@ -54,16 +54,18 @@ type Event struct {
 }
 
 type World struct {
-	Cfg   Config
-	P     url.Parser // nil => package-level functions (the default parser)
-	U     map[int]*UH
-	S     map[int]*SH
-	Cur   map[int]Obs
-	Prev  map[int]Obs
-	CurL  map[int][]Pair
-	PrevL map[int][]Pair
-	step  int
-	sched bool // schedsim: several worlds run on different goroutines; do not touch verifrt's global counters
+	Cfg         Config
+	P           url.Parser // nil => package-level functions (the default parser)
+	U           map[int]*UH
+	S           map[int]*SH
+	Cur         map[int]Obs
+	Prev        map[int]Obs
+	CurL        map[int][]Pair
+	PrevL       map[int][]Pair
+	step        int
+	wantVE      bool // C13: the content of ValidationErrors() is part of the isolation observation
+	touchErrors bool // C02: exercise the error API on every returned error
+	sched       bool // schedsim: several worlds run on different goroutines; do not touch verifrt's global counters
 }
 
 func newWorld(cfg Config) *World {
@@ -129,6 +131,23 @@ func libFrame(stack string) string {
 func stepLimit(l int) int64 {
 	L := int64(l)
 	return 1_000_000 + 1000*L + 5*L*L
+}
+
+// touchError exercises the whole public error API on a returned error (C02: it must not panic).
+func touchError(err error) {
+	if err == nil {
+		return
+	}
+	_ = err.Error()
+	_ = errors.Type(err)
+	_ = errors.Description(err)
+	_ = errors.Url(err)
+	_ = errors.Failure(err)
+	if u, ok := err.(interface{ Unwrap() error }); ok {
+		if c := u.Unwrap(); c != nil {
+			_ = c.Error()
+		}
+	}
 }
 
 func errType(err error) string {
@@ -218,6 +237,9 @@ func (w *World) exec(i int, op Op) (ev Event) {
 	}()
 	mkURL := func(u *url.Url, err error, prov string, from int) {
 		ev.Err = errType(err)
+		if w.touchErrors {
+			touchError(err)
+		}
 		if err != nil {
 			return
 		}
@@ -427,7 +449,11 @@ func (w *World) refresh() (panicked string) {
 	w.Prev, w.PrevL = w.Cur, w.CurL
 	w.Cur, w.CurL = make(map[int]Obs, len(w.U)), make(map[int][]Pair, len(w.S))
 	for id, uh := range w.U {
-		w.Cur[id] = observe(uh.U)
+		o := observe(uh.U)
+		if w.wantVE {
+			o.VE = veDigest(uh.U)
+		}
+		w.Cur[id] = o
 	}
 	for id, sh := range w.S {
 		w.CurL[id] = readList(sh.SP)
@@ -496,6 +522,15 @@ func runWorld(plan *Plan, mk func() Checker, kf *KnownFindings, keepLog bool) (r
 	defer func() { rt.Mode = prevMode }()
 	w := newWorld(plan.Cfg)
 	chk := mk()
+	if _, ok := chk.(*c02Checker); ok {
+		w.touchErrors = true
+	}
+	if _, ok := chk.(*c13Checker); ok {
+		w.wantVE = true
+	}
+	if plan.Cfg.Profile != "" || len(plan.Cfg.Opts) > 0 {
+		res.Faults["config(non-default parser options / profile)"]++
+	}
 	h := newHasher()
 	for i, op := range plan.Ops {
 		w.step = i
